@@ -224,6 +224,24 @@ def check_property(engine, tier, base_seed, n_runs, jobs, budget_s=None, write_e
                 viol_groups.setdefault((v["clause"], v.get("sig")), []).append(
                     {"seed": spec.get("seed"), "spec": spec, "v": v, "corpus": fn})
 
+    # 1b. determinism self-test: a few seeds evaluated twice must agree exactly
+    det_n = 4
+    det_ok = True
+    for k in range(det_n):
+        sd = base_seed * 10 ** 6 + 999000 + k
+        try:
+            a, b = engine.evaluate(sd, tier), engine.evaluate(sd, tier)
+        except Exception:
+            print("HARNESS-ERROR determinism self-test: %s" % traceback.format_exc())
+            return 2
+        ka = json.dumps([a.get("hash"), a.get("digest"), sorted(a.get("counters", {}).items()), a.get("viol")],
+                        sort_keys=True, default=repr)
+        kb = json.dumps([b.get("hash"), b.get("digest"), sorted(b.get("counters", {}).items()), b.get("viol")],
+                        sort_keys=True, default=repr)
+        if ka != kb:
+            print("HARNESS-ERROR nondeterminism: seed %d evaluated twice differs" % sd)
+            return 2
+
     # 2. seeded search
     results, herrs, wall = run_batch(engine, tier, base_seed, n_runs, jobs, budget_s=budget_s)
     if herrs:
@@ -304,6 +322,7 @@ def check_property(engine, tier, base_seed, n_runs, jobs, budget_s=None, write_e
             "distinct_transitions": len(agg["trans"]),
             "probes": dict(sorted(agg["probes"].items())),
             "known_findings_hit": [{"property": p, "sig": s, "count": n} for (p, s, _), n in known_hits.items()],
+            "determinism_selftest": "%d seeds evaluated twice in-process: identical" % det_n,
             "components": COMPONENTS,
             "exhaustive": False,
         }
